@@ -81,7 +81,7 @@ theorem classSat_union (env : Env) (fl : Flags) (cls : String) (v : PyVal) :
   cases v <;> simp [classSat, unionSat]
 
 /-- For a struct / struct-tree / union validator the refusal is the validation error. -/
-theorem validateTypeOnly_only_verr_of_user (env : Env) (t : PTy) (v : PyVal) (ht : isUserTy t = true) :
+theorem validateTypeOnly_only_verr_of_user (env : Env) (t : PTy) (v : PyVal) (ht : isUserTyC08 t = true) :
     ∀ e, validateTypeOnly env t v ≠ .error (.crash e) := by
   intro e h
   rcases validateTypeOnly_good env t v ht with ⟨_, b⟩ | ⟨_, b⟩
@@ -128,7 +128,7 @@ only set on fields whose validator is of a user type (which is how the generator
 `validatorOf_userDefined`). -/
 theorem setField_only_verr (E : Ext) (env : Env) (cls : String) (slots : List (String × PyVal)) (name : String) (x : PyVal)
     (s : StructDef) (f : FieldDef) (hs : env.struct? cls = some s) (hf : s.field? name = some f)
-    (hud : f.attrUserDefined = true → isUserTy f.ty = true) :
+    (hud : f.attrUserDefined = true → isUserTyC08 f.ty = true) :
     ∀ e, setField E env (.struct cls slots) name x ≠ .error (.crash e) := by
   intro e
   simp only [setField, hs, Option.bind_some, hf]
@@ -152,7 +152,7 @@ theorem setField_only_verr_of_flagsOk (E : Ext) (env : Env) (cls : String) (slot
 
 /-- The generator sets `user_defined=True` only where the validator it builds is of a user type. -/
 theorem validatorOf_userDefined (ir : IrTy) (t : PTy) (h : validatorOf ir = some t)
-    (hud : ir.isUserDefinedLit = true) : isUserTy t = true := by
+    (hud : ir.isUserDefinedLit = true) : isUserTyC08 t = true := by
   cases ir with
   | struct cls sub => simp [validatorOf] at h; subst h; cases sub <;> rfl
   | union cls => simp [validatorOf] at h; subst h; rfl
@@ -257,10 +257,10 @@ theorem set_get_other (E : Ext) (env : Env) (cls : String) (slots : List (String
 theorem memberSat_iff (E : Ext) (env : Env) (t : PTy) (x : PyVal) :
     memberSat E env t x = true ↔
       if t.flags.nullable = false ∧ isVoidT t = true then x = .none
-      else if t.flags.nullable = false ∧ isUserTy t = true then classSat env t x = true
+      else if t.flags.nullable = false ∧ isUserTyC08 t = true then classSat env t x = true
       else satB E env t x = true := by
   have hnone : isNoneV x = true ↔ x = .none := by cases x <;> simp [isNoneV]
-  cases hn : t.flags.nullable <;> cases hv : isVoidT t <;> cases hu : isUserTy t <;>
+  cases hn : t.flags.nullable <;> cases hv : isVoidT t <;> cases hu : isUserTyC08 t <;>
     simp [memberSat, hn, hv, hu, hnone, typeOnlyB]
 
 /-- `Cls(tag, x)` of a registered union succeeds exactly when the tag is known and: a Void member gets
@@ -270,7 +270,7 @@ theorem mkUnion_iff (E : Ext) (env : Env) (cls tag : String) (x : PyVal) (u : Un
     (∃ o, mkUnion E env cls tag x = .ok o) ↔
       ∃ t, u.ctorValidator tag = some t ∧
         (if t.flags.nullable = false ∧ isVoidT t = true then x = .none
-         else if t.flags.nullable = false ∧ isUserTy t = true then classSat env t x = true
+         else if t.flags.nullable = false ∧ isUserTyC08 t = true then classSat env t x = true
          else satB E env t x = true) := by
   cases hc : u.ctorValidator tag with
   | none =>
@@ -475,7 +475,7 @@ example (o' : PyVal) (h : setField exE exEnv exObj "l" (.tuple [.int 1]) = .ok o
   set_get exE exEnv "ns.S" _ "l" _ o' exS _ rfl rfl (by decide) h
 example : ∃ o, mkUnion exE exEnv "ns.U" "k" (.str "ab") = .ok o :=
   (mkUnion_iff exE exEnv "ns.U" "k" (.str "ab") exU rfl).2
-    ⟨.str {} (some 1) (some 3) (some "ab"), rfl, by simp [PTy.flags, isVoidT, isUserTy]; decide⟩
+    ⟨.str {} (some 1) (some 3) (some "ab"), rfl, by simp [PTy.flags, isVoidT, isUserTyC08]; decide⟩
 
 -- 7: union construction
 example : mkUnion exE exEnv "ns.U" "v" .none = .ok (.union "ns.U" "v" .none) ∧
